@@ -51,3 +51,4 @@ CFG = {'level': 'fault_enumeration',
 CFG['level_text'] += " Round trips also give a co-signer, or a signature already carried by the note, one of fifteen odd names (invalid UTF-8, spaces, '+', empty, unusual but carriable): Sign may refuse, but a message it returns must open with the same text."
 CFG['level_text'] += ' A third of all messages are opened twice with the same verifier objects and must end the same way; every slice handed to VerifierList is overwritten with a decoy verifier afterwards.'
 CFG['level_text'] += ' A Sign call that succeeds with a signer or carried signature whose name is empty, contains a Unicode space or a plus, or is not UTF-8 is a violation (names with leading spaces are among those tried).'
+CFG['level_text'] += ' The key checks present, under a signature the same verifier has just accepted, another text of the same length and the same CRC-32.'
